@@ -5,7 +5,7 @@ import os
 import subprocess
 import time
 
-from vf import core, e2, e3, spaces
+from vf import core, e2, e3, reent, spaces
 
 PID = "C14"
 LEVEL = "model_checking"
@@ -14,6 +14,7 @@ RULE = ("E2: breadth-first search over call histories on the real code (5 classe
         "snapshot unchanged) and I2 (bit-identical to the same call on a fresh model and fresh ratings with the same "
         "values, other ids and names). E3: every schedule with <= b preemptions of harnesses H1-H6 (2-3 threads sharing "
         "one model) at source-line and opcode granularity; each thread's result must be bit-identical to its solo result. "
+        "Re-entrancy: every inner call executed inside every gamma invocation of every outer rate() on the same model. "
         "Seeds: the same exploration re-run under PYTHONHASHSEED in {0,1,2^32-1,VERIF_SEED} with different rating ids; "
         "digests of all observations must coincide.")
 ASSUMPTIONS = [
@@ -89,6 +90,20 @@ def dispatch(unit, ctx):
         return run_e3_unit(unit, ctx)
     if unit[0] == "census":
         return run_census_unit(unit, ctx)
+    if unit[0] == "reent":
+        _, kind = unit
+        acc = core.Acc()
+        res = reent.explore(kind)
+        acc.evals += res["executions"]
+        acc.add("reentrancy_executions", res["executions"])
+        acc.add("reentrancy_gamma_points", res["points"])
+        acc.mx("reentrancy_distinct_outcomes", res["distinct_outcomes"], kind)
+        for v in res["violations"]:
+            acc.violation(PID, f"REENT:{kind}", "; ".join(v["msgs"])[:900],
+                          {"engine": "REENT", "kind": kind, "limit": v["limit"], "outer": v["outer"], "inner": v["inner"], "k": v["k"]})
+        acc.sample({"engine": "REENT", "kind": kind, "what": "inner call on the same model executed inside the k-th gamma invocation of an outer rate()",
+                    "executions": res["executions"]})
+        return acc
     if unit[0] == "free":
         _, h, kind, iters = unit
         acc = core.Acc()
@@ -147,6 +162,8 @@ def replay(case):
         dev = {int(k): v for k, v in case["dev"].items()}
         ex = e3.run_once(mk, dev, case["first"], case["gran"])
         return e3.check(ex, snap0, solo_res)
+    if eng == "REENT":
+        return reent.replay(case["kind"], case["limit"], case["outer"], case["inner"], case["k"])
     if eng == "SEED":
         acc = core.Acc()
         ctx = core.Ctx("quick", 0, 1)
@@ -191,6 +208,8 @@ def main(ctx, t0):
     for kind in spaces.KINDS:
         for h in e3.HARNESSES:
             units.append(("census", h, kind))
+    for kind in spaces.KINDS:
+        units.append(("reent", kind))
     if ctx.thorough:
         for kind in spaces.KINDS:
             for h in ("H1", "H5"):
@@ -217,12 +236,13 @@ def main(ctx, t0):
                                   "preemptions) are Mazurkiewicz-equivalent to a serial order" if shared_writes == 0 else
                                   "shared writes exist; only the bounded search decides")},
         "seed_runs": seed_out,
+        "reentrancy": {"executions": keep.count.get("reentrancy_executions", 0), "gamma_points": keep.count.get("reentrancy_gamma_points", 0)},
     }
     return core.finish(PID, ctx, LEVEL, keep, RULE, extra, ASSUMPTIONS, t0)
 
 
 def replay_unit(unit, ctx):
-    if unit and unit[0] in ("e3", "census", "free"):
+    if unit and unit[0] in ("e3", "census", "free", "reent"):
         return dispatch(unit, ctx)
     core.deterministic_ids(0)
     acc = e2._expand(unit, ctx)
